@@ -28,6 +28,23 @@ Theorem C02_ape_locate_appended : forall real body items,
 Proof. exact locate_appended. Qed.
 Print Assumptions C02_ape_locate_appended.
 
+(* the flavour of the file object (BytesIO clamps a negative relative seek to 0, a real file raises IOError) is
+   irrelevant on a well-formed file: locator, save, delete and module delete give the same result *)
+Theorem C02_ape_locate_flavour_irrelevant : forall f, ape_wf f = true -> ape_locate true f = ape_locate false f.
+Proof. exact locate_flavour_wf. Qed.
+Print Assumptions C02_ape_locate_flavour_irrelevant.
+
+Theorem C02_ape_flavour_irrelevant : forall f items, ape_wf f = true ->
+  ape_locate true f = ape_locate false f /\ ape_save true f items = ape_save false f items /\
+  ape_delete true f = ape_delete false f /\ ape_moddelete true f = ape_moddelete false f.
+Proof. exact flavour_irrelevant_wf. Qed.
+Print Assumptions C02_ape_flavour_irrelevant.
+
+(* the PyMusepack fix-up itself is flavour independent on EVERY file (it never seeks before the file start) *)
+Theorem C02_ape_fix_start_flavour_irrelevant : forall k f start, fix_start k true f start = fix_start k false f start.
+Proof. exact fix_start_flavour. Qed.
+Print Assumptions C02_ape_fix_start_flavour_irrelevant.
+
 Theorem C02_ape_segments : forall f s, ape_wf f = true -> ape_parse f = Ok s ->
   exists tagbytes, f = pbody s ++ tagbytes ++ ptrailer s /\ (ptag s = None -> tagbytes = []).
 Proof. exact parse_segments. Qed.
@@ -69,6 +86,11 @@ Proof. exact stray_preamble_refuted. Qed.
 Print Assumptions C02_ape_stray_preamble_refuted.
 
 Example C02_ape_clean_tail_examples : clean_tail audio = true /\ clean_tail (audio ++ id3v1) = true /\ clean_tail pymusepack = false.
+Proof. repeat split; vm_compute; reflexivity. Qed.
+Example C02_ape_flavour_regressions :
+  ape_delete true (APETAGEX ++ ape_render_tag [it_title]) = Ok APETAGEX /\
+  ape_delete false (APETAGEX ++ ape_render_tag [it_title]) = Ok APETAGEX /\
+  ape_delete true (APETAGEX ++ zeros 24) = Raise EMutagen /\ ape_delete false (APETAGEX ++ zeros 24) = Raise EMutagen.
 Proof. repeat split; vm_compute; reflexivity. Qed.
 Example C02_ape_documented_exception :
   ape_wf (tagged ++ id3v1) = true /\
